@@ -3,9 +3,9 @@ CONSTANTS
   Entries <- EntriesThorough
   Directives <- DirectivesThorough
   Texts <- TextsQuick
-  MaxLen = 3
-  MaxDirs = 2
-  Depth = 5
+  MaxLen = 2
+  MaxDirs = 3
+  Depth = 7
 CONSTRAINT DepthBound
 INVARIANT InvIndex
 INVARIANT InvView
